@@ -142,4 +142,18 @@ def runC (t : Fca.Table) (objs attrs : List String) : COp → CObs
     else if attrs ≠ K'.attrNames then .err (.py .ValueError)
     else .bool (eq t K'.table)
 
+/-! ### histories: every answer is the meaning of the operation on the content held at that moment -/
+
+def runHist : Fca.Table → List Step → List Res
+  | _, [] => []
+  | t, .query op :: rest => run op t :: runHist t rest
+  | _, .setData rows :: rest => runHist (Fca.Table.ofRows rows) rest
+
+def runHistC : Fca.Table → List String → List String → List CStep → List CObs
+  | _, _, _, [] => []
+  | t, objs, attrs, .query op :: rest => runC t objs attrs op :: runHistC t objs attrs rest
+  | _, objs, attrs, .setData rows :: rest => runHistC (Fca.Table.ofRows rows) objs attrs rest
+  | t, _, attrs, .setObjNames ns :: rest => runHistC t ns attrs rest
+  | t, objs, _, .setAttrNames ns :: rest => runHistC t objs ns rest
+
 end Fca.Spec.Table
